@@ -3,6 +3,7 @@
 package main
 
 import (
+	"strings"
 	"fmt"
 	"os"
 	"path/filepath"
@@ -169,6 +170,7 @@ func driveC20Main(t *testing.T, out *vEmitter) {
 			}
 		}
 	}
+	vC20Watcher(t, out)
 	out.Obs("usermap-stress", true, vL("stress", vI(2), vI(int64(nv)), vI(atomic.LoadInt64(&published)), vI(atomic.LoadInt64(&checks))))
 	out.Stat("usermap_reloads", int(atomic.LoadInt64(&published)))
 	out.Stat("usermap_validations", int(atomic.LoadInt64(&checks)))
@@ -177,4 +179,67 @@ func driveC20Main(t *testing.T, out *vEmitter) {
 
 func storeUserMap(um *UserMap, m *map[string]bool) {
 	atomic.StorePointer(&um.m, unsafe.Pointer(m)) // #nosec G103
+}
+
+
+// vC20Watcher: reloads driven by the real file watcher.  A large list is put in place by rename (as editors and
+// ConfigMap updates do) and, while its reload is still parsing, a small list is written in place.  Once the small
+// list is in force it must stay in force: a reload that started earlier must not publish its (older) contents later.
+func vC20Watcher(t *testing.T, out *vEmitter) {
+	dir, err := os.MkdirTemp("", "verif-watch-")
+	if err != nil {
+		t.Fatal(err)
+	}
+	defer os.RemoveAll(dir)
+	path := filepath.Join(dir, "emails.txt")
+	var big strings.Builder
+	big.WriteString("revoked@example.com\n")
+	for i := 0; i < vPick(150000, 400000); i++ {
+		fmt.Fprintf(&big, "user%07d@big.example\n", i)
+	}
+	small := "keep@example.com\n"
+	if err := os.WriteFile(path, []byte(small), 0o600); err != nil {
+		t.Fatal(err)
+	}
+	done := make(chan bool)
+	defer close(done)
+	var updates int64
+	um := NewUserMap(path, done, func() { atomic.AddInt64(&updates, 1) })
+	waitFor := func(cond func() bool, max time.Duration) bool {
+		dl := time.Now().Add(max)
+		for !cond() {
+			if time.Now().After(dl) {
+				return false
+			}
+			time.Sleep(5 * time.Millisecond)
+		}
+		return true
+	}
+	// how long does the large list take to load?
+	t0 := time.Now()
+	_ = os.WriteFile(path, []byte(big.String()), 0o600)
+	if !waitFor(func() bool { return um.IsValid("user0000001@big.example") && um.IsValid(fmt.Sprintf("user%07d@big.example", vPick(150000, 400000)-1)) }, 20*time.Second) {
+		out.Stat("c20_watcher_silent", 1)
+		return
+	}
+	parse := time.Since(t0)
+	rounds := vPick(4, 12)
+	for round := 0; round < rounds; round++ {
+		tmp := path + ".new"
+		_ = os.WriteFile(tmp, []byte(big.String()), 0o600)
+		_ = os.Rename(tmp, path)
+		time.Sleep(time.Duration(10+round*15) * time.Millisecond) // the first reload is under way
+		_ = os.WriteFile(path, []byte(small), 0o600)
+		inForce := waitFor(func() bool { return um.IsValid("keep@example.com") && !um.IsValid("revoked@example.com") }, 20*time.Second)
+		time.Sleep(2*parse + 300*time.Millisecond)
+		still := um.IsValid("keep@example.com") && !um.IsValid("revoked@example.com")
+		out.Stat("c20_watcher_rounds", 1)
+		if !inForce || !still {
+			out.Violation("reload/final-contents-not-visible", "after all reloads completed an allow-list validation does not reflect the final contents",
+				map[string]interface{}{"driven_by": "file watcher", "round": round, "new_contents_came_into_force": inForce, "stayed_in_force": still,
+					"revoked_address_valid": um.IsValid("revoked@example.com"), "parse_ms": parse.Milliseconds()})
+			break
+		}
+	}
+	out.Obs("usermap-watcher", true, vL("watcher", vI(int64(rounds)), vI(atomic.LoadInt64(&updates))))
 }
